@@ -144,7 +144,7 @@ fn strip_ws(s: &str) -> String {
     s.chars().filter(|c| !c.is_whitespace()).collect()
 }
 
-fn kind_of(n: &TrackedCallName) -> &'static str {
+pub fn kind_of(n: &TrackedCallName) -> &'static str {
     match n {
         TrackedCallName::Assert => "assert",
         TrackedCallName::Panic => "panic",
@@ -156,7 +156,7 @@ fn kind_of(n: &TrackedCallName) -> &'static str {
     }
 }
 
-fn markers(compiled: &simfony::CompiledProgram) -> Vec<Cmr> {
+pub fn markers(compiled: &simfony::CompiledProgram) -> Vec<Cmr> {
     use simfony::simplicity::dag::{DagLike, InternalSharing};
     use simfony::simplicity::node::Inner;
     let commit = compiled.commit();
@@ -458,7 +458,7 @@ pub fn run(rep: &Report) -> i32 {
                 rep.eval(1);
                 rep.trace(1);
                 rep.nontrivial(1);
-                let replay = |what: &str| json!({"kind": "compile", "program": text, "debug": true, "expect": "unwrap symbol carries the argument type and reconstructs the argument", "observed": what});
+                let replay = |what: &str| json!({"kind": "unwrap_symbol", "program": text, "call": if left { "unwrap_left" } else { "unwrap_right" }, "argument_type": ety.render(), "observed_at_run_time": what});
                 let built = match drive::build(&text, simfony::Arguments::default(), true) {
                     Ok(b) => b,
                     Err(o) => {
